@@ -826,14 +826,12 @@ func (c *fctxE) ev1(e ast.Expr) tset {
 				c.addAll(c.obj(id), c.ev(lit))
 				return tset{id: true}
 			}
-			s := c.st(x.X)
-			// the address of package-level state is kept in a value: treated as a write
-			for t := range s {
-				if strings.HasPrefix(t, "G:") {
-					c.effect(t)
-				}
-			}
-			return s
+			// the address of package-level state kept in a value is NOT by itself a write: the value carries
+			// the tokens of what it points into, and a store through it (`*p = v`, `p.f = v`, a mutating call on
+			// it, in this function or - through the result / argument summaries - in a caller or callee) is
+			// reported where it happens. (It used to count as a write; a read-only `e := &table[sq]` in a
+			// lookup then made every attack lookup "stateful": false-alarm probe core3-H3.)
+			return c.st(x.X)
 		case token.ARROW:
 			return c.deref(c.ev(x.X))
 		}
